@@ -66,7 +66,7 @@ def _replay(name, law):
                       "bad = not (same(r, [f(t) for t in X], tol) and same(r2, [[f(t) for t in row] for row in M], tol) and same(A, X) and same(B, M))",
             "pyfloat": "bad = not same(float(Hd.hedge(float(x))), float(Hd.hedge(np.array(x))), 0.0)",
             "singletons": "bad = False\n"
-                          "for A in (np.array([x]), np.array([[x]]), np.array([[x], [x2]]), np.array([[x, x2]]), np.array([[[x]]])):\n"
+                          "for A in (np.array([x]), np.array([[x]]), np.array([[x], [x2]]), np.array([[x, x2]]), np.array([[[x]]]), np.array([[x, x, x2], [x2, x, x2]]).T, np.array([x, x2, x2])[::-1]):\n"
                           "    r = Hd.hedge(A); bad = bad or np.shape(r) != A.shape or not same(r, np.vectorize(f)(A), tol)",
             "order": "bad = not (g('Very')(x) <= x + tol and x <= g('Somewhat')(x) + tol)",
             "inverse_vs": "bad = not (same(g('Very')(g('Somewhat')(x)), x, 1e-7) and same(g('Somewhat')(g('Very')(x)), x, 1e-7))",
@@ -119,7 +119,11 @@ def _ob(name, law, tier):
             if law == "singletons":
                 # arrays with one element or with axes of length one keep their shape: (1,), (1,1), (2,1), (1,2), (1,1,1)
                 shapes = ([x], [[x]], [[x], [x2]], [[x, x2]], [[[x]]])
-                return [(Hd.hedge(sym_array(a)), np.shape(np.array(a, dtype=object))) for a in shapes], Hd.hedge(x), Hd.hedge(x2)
+                res = [(Hd.hedge(sym_array(a)), np.shape(np.array(a, dtype=object))) for a in shapes]
+                # memory layout: a transposed view (Fortran order) and a reversed slice hold the same logical elements
+                res.append((Hd.hedge(sym_array([[x, x, x2], [x2, x, x2]]).T), (3, 2)))
+                res.append((Hd.hedge(sym_array([x, x2, x2])[::-1]), (3,)))
+                return res, Hd.hedge(x), Hd.hedge(x2)
             if law == "arrays":
                 n = 2 if tier == "quick" else 4
                 xs = [rvar(f"x{i}") for i in range(n)]
@@ -167,7 +171,8 @@ def _ob(name, law, tier):
                     ob.prove(pre, p, z3.BoolVal(False), f"{name}/singletons/shape", ins, rp)      # replayed: the shapes differ on the real library too
                     continue
                 flat = lambda a: [t for t in np.asarray(a.a if isinstance(a, core.SymArray) else a, dtype=object).ravel()]
-                claim = z3.And([all_same(flat(a), [fx, fx2][:len(flat(a))]) for a, _ in res])
+                want = {(3, 2): [fx, fx2, fx, fx, fx2, fx2], (3,): [fx2, fx2, fx]}
+                claim = z3.And([all_same(flat(a), want.get(shp, [fx, fx2][:len(flat(a))])) for a, shp in res])
                 ob.prove(pre, p, claim, f"{name}/singletons", ins, rp)
             elif law == "arrays":
                 r1, e1, r2, e2, xs, m, A, B = r
@@ -246,8 +251,8 @@ def _ob_f(name):
             ob.prove(pre, p, z3.And(z3.Not(z3.fpIsNaN(y)), z3.fpGEQ(y, Z), z3.fpLEQ(y, ONE)), f"{name}/F/range", {"x": x}, rp)
             if name != "any":
                 ob.expect_sat(pre, p, z3.fpLT(y, core.fv(0.25)), f"{name}/F/twin")
-        if n != (2 if name in ("extremely", "seldom") else 1):
-            ob.error(f"{name}: unexpected number of feasible paths {n}")
+        if n < 1:
+            ob.error(f"{name}: no feasible path")
 
     return run
 
